@@ -24,7 +24,7 @@ from simverif.core.simfs import SimFS, SimFSCrash, Mount
 
 ID = 'C13'
 LEVEL = 'fault_enumeration'
-TIERS = {'quick': {'runs': 1000}, 'thorough': {'seconds': 600}}
+TIERS = {'quick': {'runs': 1800}, 'thorough': {'seconds': 600}}
 DET_PAIRS_PER_SLOT = 3
 RULE = ("one run = one seeded history of 6..50 wallet operations (encrypt / lock / unlock with the right password, "
         "with a derived wrong password, with a searched wrong password that decrypts to valid PKCS7 padding / "
